@@ -91,9 +91,9 @@ def probe(ctx, g, f, S, U, q_expected, where, auto=False):
 
 
 def do_remove(ctx, g, f, S, h, where):
-    if h in S and len(S) == f.size and cluster_count_full(S, f.quotient) == 1 and os.environ.get("PV_EXECUTE_K1") != "1":
-        ctx.known_finding(K1, "remove on a completely full quotient filter whose slots form one single cluster does not terminate or corrupts the metadata",
-                          quotient=f.quotient, stored=sorted(S)[:16], removing=h)
+    if h in S and len(S) == f.size and cluster_count_full(S, f.quotient) == 1:
+        # the mechanism of the former known finding K1 (fixed in /repo, see known_findings.json): executed and judged like any other removal
+        ctx.count("removals_on_full_single_cluster_tables")
     g(line_limit(f.size), f.remove_alt, h)
     S.discard(h)
 
@@ -164,10 +164,9 @@ def wl_history(ctx, rng, case):
                 if r2.random() < 0.3 and h in table.values():
                     k = [k for k, v in table.items() if v == h][0]
                     if h in S and len(S) == f.size and cluster_count_full(S, f.quotient) == 1:
-                        do_remove(ctx, g, f, S, h, "")
-                    else:
-                        g(line_limit(size), f.remove, k)
-                        S.discard(h)
+                        ctx.count("removals_on_full_single_cluster_tables")
+                    g(line_limit(size), f.remove, k)
+                    S.discard(h)
                 else:
                     do_remove(ctx, g, f, S, h, f"step {step}")
                 ctx.count("op.remove")
@@ -271,21 +270,13 @@ def wl_exhaustive_q3(ctx, rng, case):
                 # --- remove transition
                 f = copy.deepcopy(f0)
                 S = set(S0)
-                try:
-                    do_remove(ctx, g, f, S, h, "")
-                except Retire:
-                    ctx.count("known_finding_region_skipped")
-                    ctx.known_hits[K1] += 0
-                    continue
+                do_remove(ctx, g, f, S, h, "")
                 probe(ctx, g, f, S, U, 3, f"after remove_alt({h}) from the set with mask {mask:#06x}")
                 transitions += 1
                 # --- one more step from the layout reached by the removal
                 h2 = U[(U.index(h) * 7 + 3) % 16]
                 if h2 in S:
-                    try:
-                        do_remove(ctx, g, f, S, h2, "")
-                    except Retire:
-                        continue
+                    do_remove(ctx, g, f, S, h2, "")
                 else:
                     try:
                         g(line_limit(8), f.add_alt, h2)
@@ -437,7 +428,7 @@ def wl_full_tables(ctx, rng, case):
             S3 = set(S)
             do_remove(ctx, g, f3, S3, h, "")
             probe(ctx, g, f3, S3, U, q, f"after remove_alt on a completely full table with {nclusters} clusters")
-            ctx.count("removals_on_full_multi_cluster_tables")
+            ctx.count("removals_on_full_multi_cluster_tables" if nclusters > 1 else "removals_on_full_single_cluster_tables")
             h2 = r2.choice(U)
             try:
                 g(line_limit(n), f3.add_alt, h2)
@@ -527,8 +518,8 @@ PROP = Prop(
     assumptions=["model is a Python set of 32-bit ints; hashes >= 2^32 are outside the domain",
                  "termination: a call may execute at most 4000 x table size library lines (x elements for resize/merge), >= 50x the largest count observed on correct runs; "
                  "the wall-clock watchdog only triggers a re-run under that budget",
-                 "K1 (listed in known_findings.json) is recognised by mechanism - remove of a stored hash on a completely full table whose canonical layout is one cluster - and never executed"],
+                 "removals on completely full single-cluster tables (the former known finding K1, fixed in /repo) are executed and counted separately"],
     finish=finish,
     required=["full_probes", "bfs.states", "bfs.transitions", "resizes", "merges", "probes_on_completely_full_table", "calls_under_line_budget",
-              "removals_on_full_multi_cluster_tables", "shrinks", "wide_quotient_cases"],
+              "removals_on_full_multi_cluster_tables", "removals_on_full_single_cluster_tables", "shrinks", "wide_quotient_cases"],
 )
